@@ -56,13 +56,18 @@ Init == store = [o \in Objs |-> NoObj] /\ hist = <<>>
 
 NewSession == \E s \in Sessions : ~Live(store, s) /\ store' = OpNewSession(store, s) /\ hist' = Append(hist, <<"news", s>>)
 Clone == \E s \in Sessions, t \in Sessions : Live(store, s) /\ ~Live(store, t) /\ store' = OpClone(store, s, t) /\ hist' = Append(hist, <<"clone", s, t>>)
-SessionSet == \E s \in Sessions, fld \in Fields, v \in Vals \ {0} :
+\* a setter may also put the default back (value 0): "overridden by what was later set" holds for every value of the
+\* domain, None and the built-in numbers included. (timeout has no setter for "none"; redir and compress are the two
+\* fields of the exhaustive configurations, where value 2 / 1 already play that part)
+BackFields == Fields \ {"timeout", "redir", "compress"}
+SetVals(fld) == IF fld \in BackFields THEN Vals ELSE Vals \ {0}
+SessionSet == \E s \in Sessions, fld \in Fields : \E v \in SetVals(fld) :
                 Live(store, s) /\ store' = OpSet(store, s, fld, v) /\ hist' = Append(hist, <<"set", s, fld, v>>)
 SessionHeader == \E s \in Sessions, n \in HNames, v \in HVals, ap \in BOOLEAN :
                 Live(store, s) /\ store' = OpHeader(store, s, n, v, ap) /\ hist' = Append(hist, <<"hdr", s, n, v, ap>>)
 NewBuilder == \E s \in Sessions, b \in Builders :
                 Live(store, s) /\ ~Live(store, b) /\ ~Live(store, Prepared(b)) /\ store' = OpNewBuilder(store, s, b) /\ hist' = Append(hist, <<"newb", s, b>>)
-BuilderSet == \E b \in Builders, fld \in Fields, v \in Vals \ {0} :
+BuilderSet == \E b \in Builders, fld \in Fields : \E v \in SetVals(fld) :
                 Live(store, b) /\ store' = OpSet(store, b, fld, v) /\ hist' = Append(hist, <<"set", b, fld, v>>)
 BuilderHeader == \E b \in Builders, n \in HNames, v \in HVals, ap \in BOOLEAN :
                 Live(store, b) /\ store' = OpHeader(store, b, n, v, ap) /\ hist' = Append(hist, <<"hdr", b, n, v, ap>>)
